@@ -166,6 +166,8 @@ def build():
         put(cid + "_bom", base, lang, enc="utf-8-sig")
         put(cid + "_utf16", base, lang, enc="utf-16")
         put(cid + "_crlf", base, lang, nl="\r\n")
+        put(cid + "_cr", base, lang, nl="\r")                     # classic-Mac line ends: lone CR
+        C[cid + "_mixed"] = {"lang": lang, "bytes": C[cid + "_utf8"]["bytes"].replace(b"\n", b"\r\n", 3).replace(b"a += 7\n", b"a += 7\r")}
         # non-ASCII text inside the code: in a string before the function's last token (its end
         # column moves if the bytes are decoded differently) and, where the language allows, in a name
         cid = f"{p}.uni"
@@ -181,6 +183,23 @@ def build():
         cid = f"{p}.big"
         pad = [_comment(lang, "padding %05d " % k + "x" * 78) for k in range(720)]
         body = _fn(lang, "head_" + _ident(cid), 3) + [""] + pad + [""] + _fn(lang, "tail_" + _ident(cid), 32) + [""] + _fn(lang, "tail2_" + _ident(cid), 4)
+        put(cid, _wrap(lang, body, cid), lang)
+        # deep nesting: 40 nested blocks inside a function, functions nested 10 deep where the
+        # language nests, 60 nested parentheses in one expression
+        cid = f"{p}.deep"
+        nm = "d_" + _ident(cid)
+        if lang == "py":
+            body = [f"def {nm}(a):"] + ["    " * (k + 1) + "if a:" for k in range(40)] + ["    " * 41 + "a = " + "(" * 60 + "1" + ")" * 60, "    return a"]
+            for k in range(10):
+                body += ["    " * k + f"def n{k}_{_ident(cid)}(x):", "    " * (k + 1) + "x += 1"]
+            body += ["    " * 10 + "return x"]
+        else:
+            body = [_hdr(lang, nm) + " {"] + ["    " * (k + 1) + "if (a) {" for k in range(40)] + \
+                   ["    " * 41 + "a = " + "(" * 60 + "1" + ")" * 60 + ";"] + ["    " * (40 - k) + "}" for k in range(40)] + ["    return a;", "}"]
+            if lang in ("js", "ts"):
+                for k in range(10):
+                    body += ["    " * k + f"function n{k}_{_ident(cid)}(x) {{", "    " * (k + 1) + "x += 1;"]
+                body += ["    " * (10 - k) + "}" for k in range(1, 11)]
         put(cid, _wrap(lang, body, cid), lang)
         # two long functions of exactly the same length in one file
         cid = f"{p}.twins"
